@@ -19,7 +19,7 @@ func VH_C05_lokijson_any_bytes() {
 	vrt.ConcreteUnwind(400000)
 	maxLen := 6
 	if vrt.Thorough() {
-		maxLen = 8
+		maxLen = 7
 	}
 	prefix := []string{"", `{"streams":[`, `{"streams":[{"stream":{"a":"b"},"values":[`}[vrt.Choice("prefix", 3)]
 	body := prefix + vrt.String("body", vrt.Len("body-len", 0, maxLen))
